@@ -305,7 +305,8 @@ func ParseRealtime(content []byte, opts *ParseRealtimeOptions) (*Realtime, error
 	vehiclesByID := map[VehicleID]*Vehicle{}
 	tripIDToVehicleID := map[TripID]VehicleID{}
 	vehicleIDToTripID := map[VehicleID]TripID{}
-	vehiclesWithNoID := []Vehicle{}
+	vehiclesWithNoID := []*Vehicle{}
+	tripIDToVehicleWithNoID := map[TripID]*Vehicle{}
 	for i, entity := range feedMessage.Entity {
 		if shouldSkip[i] {
 			continue
@@ -354,7 +355,7 @@ func ParseRealtime(content []byte, opts *ParseRealtimeOptions) (*Realtime, error
 				}
 				mergeVehicle(vehiclesByID[*vehicle.ID], *vehicle)
 			} else {
-				vehiclesWithNoID = append(vehiclesWithNoID, *vehicle)
+				vehiclesWithNoID = append(vehiclesWithNoID, vehicle)
 			}
 		}
 		if trip != nil && vehicle != nil {
@@ -364,7 +365,7 @@ func ParseRealtime(content []byte, opts *ParseRealtimeOptions) (*Realtime, error
 				tripIDToVehicleID[trip.ID] = *vehicle.ID
 				vehicleIDToTripID[*vehicle.ID] = trip.ID
 			} else {
-				trip.Vehicle = vehicle
+				tripIDToVehicleWithNoID[trip.ID] = vehicle
 			}
 		}
 	}
@@ -372,6 +373,9 @@ func ParseRealtime(content []byte, opts *ParseRealtimeOptions) (*Realtime, error
 	for tripID, trip := range tripsById {
 		if vehicleID, ok := tripIDToVehicleID[tripID]; ok {
 			trip.Vehicle = vehiclesByID[vehicleID]
+		} else if vehicle, ok := tripIDToVehicleWithNoID[tripID]; ok {
+			trip.Vehicle = vehicle
+			vehicle.Trip = trip
 		}
 		result.Trips = append(result.Trips, *trip)
 	}
@@ -390,7 +394,9 @@ func ParseRealtime(content []byte, opts *ParseRealtimeOptions) (*Realtime, error
 	sort.Slice(result.Vehicles, func(i, j int) bool {
 		return result.Vehicles[i].GetID().less(result.Vehicles[j].GetID())
 	})
-	result.Vehicles = append(result.Vehicles, vehiclesWithNoID...)
+	for _, vehicle := range vehiclesWithNoID {
+		result.Vehicles = append(result.Vehicles, *vehicle)
+	}
 	return &result, nil
 }
 
